@@ -198,6 +198,7 @@ func c07TrueSource(c *Ctx) {
 	w := c.w
 	g := w.Flow()
 	rule := "true-source"
+	ruleLoopCaptureReaching(c, rule, "the request is stamped with the source of a later datagram", "NewRawMessage")
 	n := 0
 	for _, fn := range w.All {
 		for _, cs := range w.callsIn(fn, "NewRawMessage") {
@@ -250,6 +251,7 @@ func c07TrueSource(c *Ctx) {
 func c07StampContent(c *Ctx) {
 	w := c.w
 	rule := "stamp-content"
+	ruleKVFind(c, rule, "(*ViaParam).HasParam", "(*ViaParam).SetParam", "(*ViaParam).GetParam")
 	f := c.fn(rule, "(*Message).SetReceived")
 	if f != nil {
 		gvs := w.callsIn(f, "(*Message).GetVia")
